@@ -102,10 +102,19 @@ Definition verdict (c : ccase) : N :=
   (* hypothesis of combine_sorted_partial, checked on the model's candidates of this case *)
   let sorted_hyp_bad :=
     match candidate_paths (case_hid c) hfp_struct ord_id_v ord_id_e (c_src c) (c_dst c) (c_cores c) (c_noncores c) with
-    | Ok cand => negb (fp_cost_consistentb cand)
+    | Ok cand => negb (fp_cost_consistentb cand && fp_faithfulb cand)
     | _ => false
     end in
-  let mismatch := mismatch || sorted_hyp_bad in
+  (* combine_sorted: where its decidable hypothesis on the input holds (well-formed, peer hop
+     fields distinguishable) the model's result must be sorted by cost *)
+  let sorted_thm_bad :=
+    c_wf c && peer_sig_distinctb (c_cores c ++ c_noncores c)
+    && match m with
+       | Ok ps => negb ((fix srt (l : list N) : bool :=
+                           match l with a :: ((b :: _) as r) => (a <=? b) && srt r | _ => true end) (map path_cost ps))
+       | _ => false
+       end in
+  let mismatch := mismatch || sorted_hyp_bad || sorted_thm_bad in
   let bad := c_panic c
              || negb (forallb self_consistent (c_out c)) || negb (bytes0_decodes c)
              || negb (forallb (provenance_ok (c_cores c ++ c_noncores c)) (c_out c))
